@@ -6,6 +6,7 @@
 
 #include <stdlib.h>
 #include <string.h>
+#include <limits.h>
 
 #include "valuearray_io.h"
 #include "errors.h"
@@ -432,6 +433,29 @@ static int sbdf_get_rle_values(sbdf_valuearray* handle, sbdf_object** result)
 	else if (elem_size == 0)
 	{
 		return SBDF_ERROR_UNKNOWN_TYPEID;
+	}
+
+	/* the runs must describe exactly value1 rows, with one value per run */
+	if (handle->object1->count != handle->object2->count)
+	{
+		return SBDF_ERROR_INVALID_SIZE;
+	}
+	else
+	{
+		int remaining = handle->value1;
+		for (i = 0; i < handle->object1->count; ++i)
+		{
+			int run = 1 + ((unsigned char *)handle->object1->data)[i];
+			if (run > remaining)
+			{
+				return SBDF_ERROR_INVALID_SIZE;
+			}
+			remaining -= run;
+		}
+		if (remaining != 0 || handle->value1 > INT_MAX / elem_size)
+		{
+			return SBDF_ERROR_INVALID_SIZE;
+		}
 	}
 
 	if (!(t = calloc(1, sizeof(sbdf_object))))
